@@ -2815,15 +2815,24 @@ def elementwise_builds(body):
             adds = [(k, U(v)) for _, k, v in r.sites if k and re.search(r"(Vec::<T, A>::push|::insert|VecDeque::<.*>::push_back)$", k)]
             nxs = [U(v) for _, k, v in r.sites if k and itm(k, "next")]
             per.append((adds, nxs))
-        if any(len(a) != 1 or len(n) != 1 for a, n in per):
+        if any(len(n) != 1 for a, n in per) or len({n[0] for a, n in per}) != 1:
             continue
-        if len({(a[0][0], a[0][1], n[0]) for a, n in per}) != 1:
-            continue
-        (k, v), nx = per[0][0][0], per[0][1][0]
+        nx = per[0][1][0]
         elem = ("elem",)
-        vals = tuple(rewrite(a, lambda y: elem if y == nx else None) for a in v[2][1:])
-        site = [c for c in body.calls() if c.callee == k and c.bb in set().union(*[b_ for hh, b_ in body.natural_loops() if hh == h])]
-        out.append({"src": nx[2][0], "chain": nx[2][0], "elem": elem, "values": vals, "sink": k, "sink_recv": v[2][0], "site": site[0] if site else None, "form": "loop", "targs": ""})
+        blocks_h = set().union(*[b_ for hh, b_ in body.natural_loops() if hh == h])
+        # one report per collection that receives exactly one element on every turn (other collections may be touched as well,
+        # e.g. an error map filled on some turns only)
+        for k, recv in sorted({(k_, v_[2][0]) for a, n in per for k_, v_ in a}, key=repr):
+            mine = [[v_ for k_, v_ in a if k_ == k and v_[2][0] == recv] for a, n in per]
+            if any(len(m) != 1 for m in mine):
+                continue
+            vs = [m[0] for m in mine]
+            if len(set(vs)) == 1:
+                vals = tuple(rewrite(a, lambda y: elem if y == nx else None) for a in vs[0][2][1:])
+            else:
+                vals = tuple(rewrite(mk_phi([v_[2][i_] for v_ in vs]), lambda y: elem if y == nx else None) for i_ in range(1, len(vs[0][2])))
+            site = [c for c in body.calls() if c.callee == k and c.bb in blocks_h and U(Terms(body).operand(c.args[0], c.bb)) == recv]
+            out.append({"src": nx[2][0], "chain": nx[2][0], "elem": elem, "values": vals, "sink": k, "sink_recv": recv, "site": site[0] if site else None, "form": "loop", "targs": ""})
     return out
 
 
